@@ -11,7 +11,7 @@ func init() {
 				Functions: []string{"executor.(*DepthExecutor).executeRequests", "executor.(*DepthExecutor).getVariables", "executor.(*DepthExecutor).isNeedToQuery", "executor.(*DepthExecutor).setIMap", "executor.indexMap.Set", "executor.indexMap.GetSameIndexes", "executor.(*CachedPointDataExtractor).Extract", "executor.copyMap"}},
 			{Name: "roundtrips", Pkg: ".", Files: []string{"root/fed.go", "root/c01.go", "root/c02.go"}, Entry: "VerifRoundTrips", Mode: "seq", Native: true,
 				Quick: map[string]int{"k": 2}, Thorough: map[string]int{"k": 4},
-				Reach: []string{"round trips counted", "batched call inspected"}, Functions: pipelineFns},
+				Reach: []string{"round trips counted", "stitched answer compared", "batched call inspected"}, Functions: pipelineFns},
 		},
 		Assume: []string{
 			"entity ids are string atoms known up to equality (all equality patterns among <= kmax ids are explored), containing no '#' or ':'",
